@@ -15,15 +15,15 @@ REQUIRED_THEOREMS = ['bound_partial', 'unpack_inverts', 'roundtrip_partial', 'fi
                      'counterexample_trunc', 'counterexample_wrap', 'layout_disjoint', 'layout_size']
 RULE = ('(a) dyadic float32 fields (all float32 operations of pack2d/unpack exact), shapes 1..5 x 2..6, '
         'unit 2^j with j in -90..90; classes: random walk, constant, max difference exactly 2^k, just '
-        'below 2^k, differences near -128 steps (negative-truncation region), large offsets; '
+        'below 2^k, differences near -128 steps (negative-truncation region), runs of falling steps of exactly one power of two, large offsets; '
         'non-trivial = non-constant field; distinct = distinct (shape, values); (b) packed-bit FILES: 2-3 time periods '
         '(offsets up to 60 h from the first, incl. month/year ends), 2-3 levels, 1-2 surface and 1-2 upper-level variables, '
         'grids 20-24 x 17-19; laid out per the format description by a reference encoder that packs every field with the LEAN '
         'model of pack2d (not the library); read by arlpackedbit: variable list, level list, times, and every field equal to '
         'what the bytes decode to (Lean unpack) and within one quantisation step of the encoded values; file size vs the Lean '
         'layout arithmetic')
-TRUSTED_EXTRA = ['float32 log in pack2d: at exact powers of two the code may choose NEXP one below the '
-                 'exact rule; the model accepts both there and takes the recorded NEXP as input',
+TRUSTED_EXTRA = ['the scaling exponent must equal the exact rule floor(log2 RMAX) + 1 of the model for every input (the repaired '
+                 'code takes it from the binary exponent; the former float32 logarithm was wrong at some exact powers of two)',
                  'arithmetic of pack2d/unpack is compared on dyadic inputs where float32 is exact; the '
                  'theorems are over Q']
 ASSUMPTIONS = ['numpy float32 arithmetic is exact on the generated dyadic inputs',
@@ -60,6 +60,19 @@ def _field(rng, klass):
         sgn = rng.choice([1, -1])
         vals[r * nx + c] = base
         vals[r * nx + c + 1] = base + sgn * big
+    elif klass == 'falls':
+        # steps of exactly one power of two, several of them falling in a row (along a row and down the first column):
+        # the largest difference is an exact power of two, 2**(k+j) over the whole float32 exponent range of the stream
+        k = rng.randint(0, 6)
+        big = 2 ** k
+        v = rng.randint(-50, 50) * big
+        vals = []
+        for i in range(n):
+            if i % nx == 0 and i:
+                v = vals[i - nx] + rng.choice([-big, -big, big, 0])      # first column: from the row above
+            elif i:
+                v = v + rng.choice([-big, -big, -big, big, 0, big // 2])
+            vals.append(v)
     elif klass == 'negedge':
         # quarter-step resolution around -128 steps: units of 1/4 step with NEXP = 7+2
         vals = []
@@ -74,7 +87,7 @@ def _field(rng, klass):
     return rows
 
 
-CLASSES = ['walk', 'walk', 'const', 'pow2', 'below', 'negedge', 'negedge']
+CLASSES = ['walk', 'walk', 'const', 'pow2', 'below', 'negedge', 'negedge', 'falls']
 
 
 def gen(rng, tier):
@@ -204,7 +217,7 @@ def agree(case, out, res):
     if int(kv['ksum']) != res['ksum']:
         msgs.append('ksum model=%s impl=%s' % (kv['ksum'], res['ksum']))
     mn = int(kv['nexp'])
-    if not (res['nexp'] == mn or (kv['pow2'] == '1' and res['nexp'] == mn - 1)):
+    if res['nexp'] != mn:
         msgs.append('nexp model=%d impl=%d' % (mn, res['nexp']))
     if kv['unpack'] != lib.show_rows(res['unpack']):
         msgs.append('unpack model=%s impl=%s' % (kv['unpack'], lib.show_rows(res['unpack'])))
@@ -237,7 +250,8 @@ def classify(case, failure, model_out):
     if case.get('kind') == 'file':
         return None
     st, kv = lib.parse_kv(model_out)
-    if st == 'ok' and kv.get('negtrunc') == '1' and failure.startswith('error'):
+    # the recorded finding is the truncation of a negative code under the EXACT exponent rule; a wrong exponent is another defect
+    if st == 'ok' and kv.get('negtrunc') == '1' and kv.get('given') == kv.get('nexp') and failure.startswith('error'):
         return KEY_NEG
     return None
 
